@@ -383,7 +383,7 @@ fn chk(rec: &CallRec, what: &str) -> Result<(), Fail> {
 
 pub fn exec_scenario(s: &Scenario, out: &mut CaseOut) -> Result<(), Fail> {
     let mk = |max_packet: u32, codec: CodecKind| {
-        Inst::new(Id::new(0, 0), CfgSpec { max_packet, max_tx: 2, ..CfgSpec::default() }, codec, 3, HandlerSpec { enabled: true, inval: crate::handler::Inval::Never, accept: crate::handler::Accept::Always, recipients: u32::MAX })
+        Inst::new(Id::new(0, 0), CfgSpec { max_packet, max_tx: 2, ..CfgSpec::default() }, codec, 3, HandlerSpec { enabled: true, inval: crate::handler::Inval::Never, accept: crate::handler::Accept::Always, recipients: u32::MAX, accept_empty: false })
     };
     match s {
         Scenario::BigItem { max_packet, len, codec } => {
